@@ -65,7 +65,8 @@ StrOps == {"str_starts_with", "str_ends_with", "str_contains", "str_replace_all"
 ElemOps == {"add", "sub", "mul", "truediv", "floordiv", "mod", "neg", "pos", "abs",
             "eq", "ne", "lt", "le", "gt", "ge", "and", "or", "xor", "not",
             "is_null", "is_not_null", "fill_null", "is_in", "coalesce",
-            "hmax", "hmin", "hsum", "hany", "hall", "clip", "floor", "ceil"}
+            "hmax", "hmin", "hsum", "hany", "hall", "clip", "floor", "ceil",
+            "is_nan", "is_not_nan", "is_inf", "is_not_inf"}
 AggOps  == {"sum", "mean", "min", "max", "any", "all", "count", "len"}
 WinOps  == {"row_number", "rank", "dense_rank", "shift", "cum_sum"}
 Markers == {"descending", "ascending", "nulls_first", "nulls_last"}
@@ -89,11 +90,13 @@ FnTy(op, ts) ==
       [] op \in {"and", "or", "xor"} -> IF n = 2 /\ j \in {"bool", "null"} THEN "bool" ELSE "ERR"
       [] op = "not" -> IF n = 1 /\ j \in {"bool", "null"} THEN "bool" ELSE "ERR"
       [] op \in {"is_null", "is_not_null"} -> IF n = 1 THEN "bool" ELSE "ERR"
-      [] op \in {"fill_null", "coalesce"} -> IF n >= 2 /\ j # "ERR" THEN j ELSE "ERR"
+      [] op \in {"is_nan", "is_not_nan", "is_inf", "is_not_inf"} -> IF n = 1 /\ j \in {"float", "int", "null"} THEN "bool" ELSE "ERR"
+      [] op = "fill_null" -> IF n = 2 /\ j # "ERR" THEN j ELSE "ERR"
+      [] op = "coalesce" -> IF n >= 1 /\ j # "ERR" THEN j ELSE "ERR"          \* the variadic functions take one or more arguments
       [] op = "is_in" -> IF n >= 2 /\ j # "ERR" THEN "bool" ELSE "ERR"
-      [] op \in {"hmax", "hmin"} -> IF n >= 2 /\ j # "ERR" /\ Comparable(j) THEN (IF j = "null" THEN "AMBIG" ELSE j) ELSE "ERR"
-      [] op = "hsum" -> IF n >= 2 /\ j \in {"int", "float", "str"} THEN j ELSE IF j = "null" THEN "AMBIG" ELSE "ERR"
-      [] op \in {"hany", "hall"} -> IF n >= 2 /\ j \in {"bool", "null"} THEN "bool" ELSE "ERR"
+      [] op \in {"hmax", "hmin"} -> IF n >= 1 /\ j # "ERR" /\ Comparable(j) THEN (IF j = "null" THEN "AMBIG" ELSE j) ELSE "ERR"
+      [] op = "hsum" -> IF n >= 1 /\ j \in {"int", "float", "str"} THEN j ELSE IF j = "null" THEN "AMBIG" ELSE "ERR"
+      [] op \in {"hany", "hall"} -> IF n >= 1 /\ j \in {"bool", "null"} THEN "bool" ELSE "ERR"
       [] op = "clip" -> IF n = 3 /\ j # "ERR" /\ Comparable(j) THEN (IF j = "null" THEN "AMBIG" ELSE j) ELSE "ERR"
       [] op \in {"str_starts_with", "str_ends_with", "str_contains"} -> IF n = 2 /\ j \in {"str", "null"} THEN "bool" ELSE "ERR"
       [] op = "str_replace_all" -> IF n = 3 /\ j \in {"str", "null"} THEN "str" ELSE "ERR"
@@ -286,6 +289,9 @@ ApplyFn(e, vs) ==          \* e: elaborated fn node, vs: argument values (alread
       [] op = "not" -> Not3(vs[1])
       [] op = "is_null" -> IF IsU(vs[1]) THEN UNDEF ELSE IsN(vs[1])
       [] op = "is_not_null" -> IF IsU(vs[1]) THEN UNDEF ELSE ~IsN(vs[1])
+      \* the values of the model are finite numbers (nan / inf are outside the fragment): null for null, otherwise a fixed answer
+      [] op \in {"is_nan", "is_inf"} -> Strict1(vs[1], FALSE)
+      [] op \in {"is_not_nan", "is_not_inf"} -> Strict1(vs[1], TRUE)
       [] op = "fill_null" -> IF SeqAnyU(pv) THEN UNDEF ELSE IF IsN(pv[1]) THEN pv[2] ELSE pv[1]
       [] op = "coalesce" -> IF SeqAnyU(pv) THEN UNDEF
                             ELSE LET nn == {i \in DOMAIN pv : ~IsN(pv[i])} IN
